@@ -266,7 +266,7 @@ def _norm(d, truth, depth=0):
             return [(("is", "some", _strip(d[2][0])), "==", ("lit", truth))]
         if re.search(r"::(is_none|is_err)$", name) and d[2]:
             return [(("is", "some", _strip(d[2][0])), "==", ("lit", not truth))]
-        if re.search(r"::(starts_with|ends_with|contains|is_char_boundary|eq_ignore_ascii_case)$", name):
+        if re.search(r"::(starts_with|ends_with|contains|contains_key|is_char_boundary|eq_ignore_ascii_case)$", name):
             return [(("pred", name.rsplit("::", 1)[1], tuple(_strip(x) for x in d[2])), "==", ("lit", truth))]
         if re.search(r"krauss::wildcard_match$", name):
             return [(("pred", "wildcard_match", tuple(_strip(x) for x in d[2])), "==", ("lit", truth))]
